@@ -2,7 +2,14 @@
 operations table, as rcmd.c does) and src/common/pipecmd.c on real children.  The abort paths of dsh.c forward SIGINT to
 every READING target with whatever value rcmd->efd has (-1 without -s, -1 again after EOF on the command's stderr): the
 module must deliver it to the command all the same.  Deterministic: an undelivered signal shows as a child that ends by
-itself after 3 s with status 0."""
+itself after 3 s with status 0.
+
+The process side of "a host is READING right after fork()": the harness includes the real pipecmd.c with the libc calls of
+its forked child numbered, and sends the signal through the module's signal function while the child is stopped before its
+k-th call, for every k between fork() and exec (before/after the dup2()s, inside closeall(), before and after setsid(),
+before execvp()), with and without a stderr descriptor; SIGINT/SIGTSTP blocked in the caller as dsh() leaves them.  The
+command is harness/sig_helper.c, which reports by its exit status that its handler ran: the signal has to ARRIVE at the
+command, not merely be sent."""
 import os
 import re
 import subprocess
@@ -13,17 +20,26 @@ SRCS = ["src/common/pipecmd.c", "src/common/err.c", "src/common/xmalloc.c", "src
         "src/common/split.c", "src/common/fd.c"]
 
 
+POINTS = {}      # of the last run: call the child was stopped before -> number of scenarios
+
+
 def run(ctx):
     """-> (list of (signature, what, case), number of scenarios run) ; build problems are recorded in ctx.broken"""
     exe = os.path.join(ctx.scratch, "execsig_harness")
-    ok = ctx.cc(exe, [os.path.join(HARNESS, "execsig_harness.c")] + [os.path.join(REPO, f) for f in SRCS],
+    ok = ctx.cc(exe, [os.path.join(HARNESS, "execsig_harness.c")] + [os.path.join(REPO, f) for f in SRCS
+                                                                     if not f.endswith("/pipecmd.c")],
                 san=False, assertions=False)
     if not ok:
+        return [], 0
+    helper = os.path.join(ctx.scratch, "sig_helper")
+    hp = subprocess.run(["gcc", "-O1", "-w", os.path.join(HARNESS, "sig_helper.c"), "-o", helper], stderr=subprocess.PIPE)
+    if hp.returncode != 0:
+        ctx.broken.append(("C-BROKEN", "harness build sig_helper", hp.stderr.decode("utf-8", "replace")[-1000:]))
         return [], 0
     p = None
     for attempt in (1, 2):          # a time-out alone is retried once before it is reported
         try:
-            p = subprocess.run([exe], stdout=subprocess.PIPE, stderr=subprocess.PIPE, timeout=60, stdin=subprocess.DEVNULL)
+            p = subprocess.run([exe, helper], stdout=subprocess.PIPE, stderr=subprocess.PIPE, timeout=60, stdin=subprocess.DEVNULL)
             break
         except subprocess.TimeoutExpired:
             ctx.log("execsig_harness did not end within 60 s (attempt %d)" % attempt)
@@ -31,21 +47,59 @@ def run(ctx):
         return [("execsig:timeout", "execsig_harness did not end within 60 s, twice", {"harness": "execsig_harness"})], 0
     out = p.stdout.decode("utf-8", "replace")
     offs, n = [], 0
+    points, calls = [], {}
     for line in out.splitlines():
-        m = re.match(r"(\S+) delivered=(\d) sigf=(-?\d+) wait=(-?\d+)", line)
+        mc = re.match(r"calls(\S*) (-?\d+)$", line)
+        if mc:
+            calls[mc.group(1)] = int(mc.group(2))
+            continue
+        m = re.match(r"(\S+) delivered=(\d) sigf=(-?\d+) wait=(-?\d+)(?: self=(\d))?", line)
         if not m:
             if line.strip():
                 offs.append(("execsig:" + line.split()[0] + ":start-failed", "scenario could not be started: " + line,
                              {"harness": "execsig_harness", "line": line}))
             continue
         n += 1
-        if m.group(2) != "1":
+        pt = re.match(r"pt(\d+):([^:]+)(:s)?$", m.group(1))
+        if pt:
+            points.append(pt.group(2))
+        if pt and m.group(5) == "1":
+            offs.append(("execsig:hit-pdsh-itself:before-%s" % pt.group(2),
+                         "exec module: SIGINT forwarded while the just-forked child of the command was stopped before its "
+                         "call no. %s after fork(), %s(), was (also) sent to the sender: the child is still in the process "
+                         "group of pdsh there, and a signal to `its group` goes to pdsh and to everything else in that group" %
+                         (pt.group(1), pt.group(2)),
+                         {"harness": "harness/execsig_harness.c <sig_helper>", "scenario": m.group(1), "line": line}))
+        if m.group(2) != "1" and pt:
+            # one offender per kind of call the child was about to make (closeall() alone has a point per descriptor)
+            offs.append(("execsig:not-delivered:before-%s%s" % (pt.group(2), pt.group(3) or ""),
+                         "exec module: SIGINT forwarded while the just-forked child of the command was stopped before its "
+                         "call no. %s after fork(), %s()%s, never arrived at the command (signal function returned %s; the "
+                         "command ran to its end: wait status %s).  The host is DSH_READING as soon as fork() has returned "
+                         "in pdsh: an abort there prints `sending signal` and leaves the command running" %
+                         (pt.group(1), pt.group(2), ", stderr descriptor requested" if pt.group(3) else "", m.group(3),
+                          m.group(4)),
+                         {"harness": "harness/execsig_harness.c <sig_helper>", "scenario": m.group(1), "line": line}))
+        elif m.group(2) != "1" and m.group(1) == "ordinary-command":
+            offs.append(("execsig:not-delivered:ordinary-command-inherits-blocked-mask",
+                         "exec module: SIGINT forwarded to a command that does not touch its signal mask (`sleep 3`, started "
+                         "while the caller blocks SIGINT/SIGTSTP/SIGCHLD as every thread of pdsh does) stays pending: the "
+                         "command inherited the mask across fork and exec and never receives the interrupt (%s)" % line,
+                         {"harness": "harness/execsig_harness.c <sig_helper>", "scenario": m.group(1), "line": line}))
+        elif m.group(2) != "1":
             offs.append(("execsig:not-delivered:" + m.group(1),
                          "exec module: SIGINT forwarded with efd as dsh.c keeps it (%s) did not reach the running command "
                          "(signal function returned %s, the command ended by itself: wait status %s)" %
                          (m.group(1), m.group(3), m.group(4)),
-                         {"harness": "harness/execsig_harness.c (no arguments)", "scenario": m.group(1), "line": line}))
-    if p.returncode != 0 or n != 3:
-        offs.append(("execsig:crash", "execsig_harness rc=%s, %d of 3 scenarios reported: %s" %
-                     (p.returncode, n, p.stderr.decode("utf-8", "replace")[-300:]), {"harness": "execsig_harness"}))
+                         {"harness": "harness/execsig_harness.c <sig_helper>", "scenario": m.group(1), "line": line}))
+    seen = set()
+    offs = [o for o in offs if not (o[0] in seen or seen.add(o[0]))]
+    # the child of the real _pipecmd makes at least: the dup2()s, the close loop, the exec
+    if p.returncode != 0 or n < 4 + 8 or len(calls) != 2 or min(calls.values()) < 4 or \
+            len(points) != sum(calls.values()) or "ordinary-command " not in out:
+        offs.append(("execsig:crash", "execsig_harness rc=%s, %d scenarios reported, calls counted %s: %s" %
+                     (p.returncode, n, calls, p.stderr.decode("utf-8", "replace")[-300:]), {"harness": "execsig_harness"}))
+    POINTS.clear()
+    for x in points:
+        POINTS[x] = POINTS.get(x, 0) + 1
     return offs, n
